@@ -423,6 +423,16 @@ pub fn run(args: &Args, seed: u64, tier: &str, report: &Report) -> String {
             }
             true
         });
+        // legal positions (per refchess) whose FEN the reader refused, or on which it panicked, while the streams were built
+        let rejected: Vec<String> = l.samples.iter().filter_map(|x| x.as_str().and_then(|t| t.strip_prefix("rejected-by-reader:")).map(|t| t.to_string())).collect();
+        l.samples.retain(|x| !x.as_str().map(|t| t.starts_with("rejected-by-reader:")).unwrap_or(false));
+        for fen in rejected {
+            // (texts whose en-passant field names a target nobody can capture on are left out: a stricter reader may refuse those)
+            let strict_ok = Pos::from_fen(&fen).map(|p| p.ep_field(EpConv::Legal) == p.ep_field(EpConv::Always)).unwrap_or(false);
+            if strict_ok {
+                report.violation(Violation { monitor: "c06".into(), signature: "c06.read.rejected".into(), what: format!("the FEN of a legal position is not read: '{fen}' ({:?})", guarded(|| Game::from_fen(&fen).map(|_| ())).map(|r| r.map_err(|e| e.to_string()))), replay_args: vec![], detail: J::Null });
+            }
+        }
         // hostile text
         let mut rng = Rng::new(seed, 7000 + shard as u64);
         let mut valid_pool: Vec<String> = roots.iter().map(|p| p.to_fen(EpConv::Adjacent)).collect();
